@@ -30,5 +30,11 @@ func (b Boom) MarshalGQL(w io.Writer) {
 	if strings.HasPrefix(b.V, "mpanic:") {
 		panic("BOOM-MARSHAL-PANIC " + b.V)
 	}
+	if strings.HasPrefix(b.V, "minvalid:") {
+		// a marshaler that emits something that is not JSON: the transports find out when they
+		// encode the response
+		io.WriteString(w, `{"unterminated`)
+		return
+	}
 	io.WriteString(w, strconv.Quote(b.V))
 }
